@@ -20,11 +20,11 @@ from vf.driver import sig_of
 
 ID = "C07"
 LEVEL = "fault_enumeration"
-STAGES = ["accepted", "connected", "sub", "suball", "paused", "logger", "accepted_sub", "accepted_suball"]
+STAGES = ["accepted", "connected", "sub", "suball", "paused", "logger", "accepted_sub", "accepted_suball", "sub_unsuball", "sub_pauseall"]
 WAYS = ["disc", "fin", "rst", "partial_fin", "partial_rst", "write", "refused_dup", "refused_range", "refused_name", "frame_fin", "frame_rst"]
 RULE = ("cases = way of leaving {DISCONNECT, FIN, RST, FIN/RST after every byte offset of a frame it was sending, reset "
         "discovered while the manager writes to it, refusal at connect (duplicate id, id out of range, duplicate name)} x "
-        "stage {accepted, connected, subscribed, sub-all, paused, logger} x {alone, second departure in the same round} x "
+        "stage {accepted, connected, subscribed, sub-all, paused, logger, subscribed to single types then unsubscribed/paused with ALL_MESSAGE_TYPES} x {alone, second departure in the same round} x "
         "third-party traffic in that round {publication, control frame} x every service order of the ready set; "
         "non-trivial = the departed held an id or subscriptions (stage != accepted) or was refused; distinct = distinct descriptor")
 ASSUMPTIONS = ["CLIENT_CLOSED is matched to the departed connection by the client address/port it carries",
@@ -71,6 +71,9 @@ def dep_steps(L, idn, name, d, tcode):
             setup += [["sub", L, T2], ["pause", L, T2]]
         if stage in ("suball", "logger"):
             setup.append(["sub", L, ALL])
+        if stage in ("sub_unsuball", "sub_pauseall"):
+            # holds individual subscriptions and then names ALL_MESSAGE_TYPES in an UNSUBSCRIBE / PAUSE_SUBSCRIPTION
+            setup += [["sub", L, T], ["sub", L, T2], ["unsub" if stage == "sub_unsuball" else "pause", L, ALL]]
     setup.append(["drain"])
     excl = False
     if way == "disc":
